@@ -1040,7 +1040,8 @@ fn mutself_pass(text: String, is_method: bool, cnt: &mut Counters) -> Result<Str
 // R13: `//@stub N <let-anchor> => <stand_in(args)>` — the initializer expression of ONE `let` statement that
 //      Verus cannot express (e.g. an iterator chain whose closure mutates a captured variable) is replaced by a
 //      call to a named external_body stand-in with an assumed contract. Only a `let` initializer can be replaced,
-//      only by `ident(ident | &ident, ..)`; the original expression text is listed in the map's `dropped` list
+//      only by `ident(ident | &ident | &mut ident, ..)` (`&mut x` when the replaced expression assigns the local `x`, e.g.
+//      through a closure that captures it); the original expression text is listed in the map's `dropped` list
 //      (prefix `R13:`), so the evidence names exactly what was not verified. Runs before R4.
 // ------------------------------------------------------------------------------------------
 #[derive(Default)]
@@ -1070,7 +1071,8 @@ fn is_stub_call(call: &str) -> bool {
     let simple = |e: &Expr| matches!(e, Expr::Path(p) if p.path.get_ident().is_some());
     simple(&c.func)
         && c.args.iter().all(|a| match a {
-            Expr::Reference(r) => r.mutability.is_none() && simple(&r.expr),
+            // `&mut x`: for a closure that assigns a captured local, the stand-in takes that local by mutable reference
+            Expr::Reference(r) => simple(&r.expr),
             e => simple(e),
         })
 }
@@ -1078,7 +1080,7 @@ fn is_stub_call(call: &str) -> bool {
 fn stub_pass(mut text: String, is_method: bool, path: &str, stubs: &[(usize, String, String)], cnt: &mut Counters, dropped: &mut Vec<String>) -> Result<String, String> {
     for (k, anchor, call) in stubs {
         if !is_stub_call(call) {
-            return Err(format!("{path}: //@stub replacement must be `stand_in(ident | &ident, ..)`, got `{call}`"));
+            return Err(format!("{path}: //@stub replacement must be `stand_in(ident | &ident | &mut ident, ..)`, got `{call}`"));
         }
         let mut f = LetFind::default();
         if is_method {
